@@ -25,27 +25,28 @@ func isGoodFile(clean string) bool {
 }
 
 type Gen struct {
-	R           *SplitMix
-	W           map[string]int // weights by command family
-	Text        string         // "plain" | "unicode" | "huge"
-	Modes       []string       // input modes to draw from
-	Agents      []string
-	nfile       int
-	BadBias     int // percent of commands deliberately aimed at failure causes
-	Human       int // percent of commands run without --json
-	Known       map[string]bool
-	ForcePct    int  // percent of creations whose first id draw is forced to collide
-	RawPct      int  // percent of JSON inputs delivered as a hand-written byte string (padding, escapes, or malformed)
-	Links       bool // file ops also create symlinks (C20)
-	RepeatPct   int  // percent of result attachments that are repeated verbatim
-	MixPct      int  // percent of JSON-stdin creations that also carry a field flag (undefined input, invariants only)
-	ResPct      int  // extra percent of set commands that attach a result
-	AimPct      int  // percent of commands found by searching the model for a rare outcome class (aim.go)
-	IOPct       int  // percent of mutating commands that meet an I/O error (short write + ENOSPC, EIO on read, EMFILE on open)
-	lastRes     *Cmd
-	queue       []Step // follow-ups of an earlier command, issued over the next steps
-	rewrote     bool
-	wantCompact bool
+	R            *SplitMix
+	W            map[string]int // weights by command family
+	Text         string         // "plain" | "unicode" | "huge"
+	Modes        []string       // input modes to draw from
+	Agents       []string
+	nfile        int
+	BadBias      int // percent of commands deliberately aimed at failure causes
+	Human        int // percent of commands run without --json
+	Known        map[string]bool
+	ForcePct     int  // percent of creations whose first id draw is forced to collide
+	RawPct       int  // percent of JSON inputs delivered as a hand-written byte string (padding, escapes, or malformed)
+	Links        bool // file ops also create symlinks (C20)
+	RepeatPct    int  // percent of result attachments that are repeated verbatim
+	EditAgainPct int  // percent of text edits that are followed by another edit of the same field of the same item
+	MixPct       int  // percent of JSON-stdin creations that also carry a field flag (undefined input, invariants only)
+	ResPct       int  // extra percent of set commands that attach a result
+	AimPct       int  // percent of commands found by searching the model for a rare outcome class (aim.go)
+	IOPct        int  // percent of mutating commands that meet an I/O error (short write + ENOSPC, EIO on read, EMFILE on open)
+	lastRes      *Cmd
+	queue        []Step // follow-ups of an earlier command, issued over the next steps
+	rewrote      bool
+	wantCompact  bool
 	// avoid triggers of open known findings in most runs (see DESIGN 5)
 	Avoid map[string]bool
 }
@@ -445,6 +446,21 @@ func (g *Gen) next2(m *Model) Step {
 		}
 		if nf == 0 {
 			c.State = sp(g.state())
+		}
+		if (c.Title != nil || c.Body != nil) && g.EditAgainPct > 0 && g.R.Intn(100) < g.EditAgainPct {
+			// the same text field of the same item is edited again a little
+			// later (whatever the clock did in between, the last edit counts)
+			again := Cmd{Op: "set", Mode: g.mode(), ID: c.ID}
+			if c.Title != nil {
+				again.Title = sp(g.text("title"))
+			}
+			if c.Body != nil || again.Mode == "bodystdin" {
+				again.Body = sp(g.text("body"))
+			}
+			g.queue = append(g.queue, Step{Cmd: &again})
+			if g.R.Chance(1, 3) {
+				g.queue = append(g.queue, Step{Cmd: &Cmd{Op: "compact"}}, Step{Cmd: &Cmd{Op: "show", ID: c.ID}})
+			}
 		}
 		if g.bad() && c.Mode == "json" {
 			switch g.R.Intn(3) {
